@@ -242,31 +242,35 @@ def _extra_forms(c, A, B, w, out):
         else:
             P, Q = [a.copy() for a in A], [b.copy() for b in B]
         call = form if form in ("pos", "kw") else "std"
-        rec = {"mix": form, "abs": True, "form": "list", "swap": False, "raised": False, "val": QNAN, "perm": []}
-        try:
-            if form == "afterfail":
-                try:
-                    congruence_coefficient(P, Q[:-1] if len(Q) > 1 else Q + Q)      # lists of different length: ValueError
-                except ValueError:
-                    pass
-            val, perm = invoke(congruence_coefficient, "congruence_coefficient", {"matrix1": P, "matrix2": Q, "absolute_value": True}, call)
-            rec.update(val=qi(val, S6), perm=[int(x) for x in perm])
-        except Exception as ex:
-            rec.update(raised=True, exc=type(ex).__name__)
-        out["cong"].append(rec)
-        for m in METHODS:
-            rec = {"tol": 0, "dt": form, "swap": False, "method": m, "raised": False, "val": 0, "zero": False}
+        # every published parameter is handed over explicitly, each flag in both values for the two call forms
+        for abs_ in ((True, False) if form in ("pos", "kw") else (True,)):
+            rec = {"mix": form, "abs": abs_, "form": "list", "swap": False, "raised": False, "val": QNAN, "perm": []}
             try:
                 if form == "afterfail":
                     try:
-                        correlation_index(P, Q, method="no_such_method")                  # documented ValueError
+                        congruence_coefficient(P, Q[:-1] if len(Q) > 1 else Q + Q)      # lists of different length: ValueError
                     except ValueError:
                         pass
-                sc = invoke(correlation_index, "correlation_index", {"factors_1": P, "factors_2": Q, "tol": 5e-16, "method": m}, call)
-                rec.update(val=qi(sc, S6), zero=bool(sc == 0))
+                val, perm = invoke(congruence_coefficient, "congruence_coefficient", {"matrix1": P, "matrix2": Q, "absolute_value": abs_}, call)
+                rec.update(val=qi(val, S6), perm=[int(x) for x in perm])
             except Exception as ex:
                 rec.update(raised=True, exc=type(ex).__name__)
-            out["corr"].append(rec)
+            out["cong"].append(rec)
+        for t in ((0, 1) if form in ("pos", "kw") else (0,)):
+            for m in METHODS:
+                rec = {"tol": t, "dt": form, "swap": False, "method": m, "raised": False, "val": 0, "zero": False}
+                try:
+                    if form == "afterfail":
+                        try:
+                            correlation_index(P, Q, method="no_such_method")                  # documented ValueError
+                        except ValueError:
+                            pass
+                    sc = invoke(correlation_index, "correlation_index",
+                                {"factors_1": P, "factors_2": Q, "tol": 1e-5 if t else 5e-16, "method": m}, call)
+                    rec.update(val=qi(sc, S6), zero=bool(sc == 0))
+                except Exception as ex:
+                    rec.update(raised=True, exc=type(ex).__name__)
+                out["corr"].append(rec)
         if form in ("pos", "kw", "afterfail"):
             rec = {"form": "single", "ref": "A", "target": "B", "mix": form, "raised": False, "perm": [], "exact": True, "factors": [], "weights": [],
                    "eqf": False, "eqw": False, "alias": False}
